@@ -11,6 +11,7 @@ import (
 	"flag"
 	"fmt"
 	"go/ast"
+	"go/build"
 	"go/parser"
 	"go/token"
 	"os"
@@ -88,7 +89,7 @@ func (d Dir) ID() string {
 	return fmt.Sprintf("a[%s]b[%s]extra=%s", n(d.F1), n(d.F2), d.Extra)
 }
 
-var extras = []string{"none", "x_test.go", "x.gold.v", "x.go~", "subdir", "README.md", "zz.txt", "symlink", "Z_ext_test.go"}
+var extras = []string{"none", "x_test.go", "x.gold.v", "x.go~", "subdir", "README.md", "zz.txt", "symlink", "Z_ext_test.go", "dotfile", "underscore", "lockfile", "longline", "buildignore", "goos", "helper_suite"}
 
 func (d Dir) files() map[string]string {
 	out := map[string]string{}
@@ -125,6 +126,25 @@ func (d Dir) files() map[string]string {
 		out["Z_ext_test.go"] = "package semantics_test\n\nfunc testInExternalTest() bool {\n\treturn true\n}\n"
 	case "zz.txt":
 		out["zz.txt"] = "func failing_testInTxt() bool {\n"
+	case "buildignore":
+		// a generator excluded from the package by a build constraint
+		out["gen.go"] = "//go:build ignore\n\npackage main\n\nfunc testdata() bool {\n\treturn true\n}\n\nfunc main() {\n\ttestdata()\n}\n"
+	case "goos":
+		out["x_windows.go"] = "package semantics\n\nfunc testOnWindows() bool {\n\treturn true\n}\n"
+	case "helper_suite":
+		// a helper named like an identifier the fixed header of the generated Go file uses
+		out["h.go"] = "package semantics\n\nfunc suite() bool {\n\treturn true\n}\n"
+	case "dotfile":
+		// files whose names begin with "." or "_" are not part of the package (go/build ignores them)
+		out[".b.go"] = "package semantics\n\nfunc testInDotFile() bool {\n\treturn true\n}\n"
+	case "underscore":
+		out["_b.go"] = "package semantics\n\nfunc testInUnderscoreFile() bool {\n\treturn true\n}\n"
+	case "lockfile":
+		// runDir makes .#a.go a dangling symbolic link (an emacs lock file)
+		out[".#a.go"] = ""
+	case "longline":
+		// a gofmt-clean line longer than bufio.Scanner's default token limit, followed by a test function
+		out["l.go"] = "package semantics\n\nconst blob = \"" + strings.Repeat("x", 70000) + "\"\n\nfunc testAfterLongLine() bool {\n\treturn len(blob) > 0\n}\n"
 	case "symlink":
 		// runDir makes s.go a symbolic link to a file outside the directory (go list and the compiler follow it)
 		out["s.go"] = "package semantics\n\nfunc testViaSymlink() bool {\n\treturn true\n}\n"
@@ -146,8 +166,11 @@ func expected(dir string) ([]T, error) {
 	var out []T
 	for _, e := range ents {
 		n := e.Name()
-		if e.IsDir() || !strings.HasSuffix(n, ".go") || strings.HasSuffix(n, "_test.go") {
-			continue
+		if e.IsDir() || !strings.HasSuffix(n, ".go") || strings.HasSuffix(n, "_test.go") || strings.HasPrefix(n, ".") || strings.HasPrefix(n, "_") {
+			continue // as go/build: not a source file of the package
+		}
+		if ok, err := build.Default.MatchFile(dir, n); err != nil || !ok {
+			continue // excluded by a build constraint or a GOOS/GOARCH suffix
 		}
 		fset := token.NewFileSet()
 		f, err := parser.ParseFile(fset, filepath.Join(dir, n), nil, 0)
@@ -292,6 +315,12 @@ func runDir(bin, root string, d Dir) result {
 	for n, c := range d.files() {
 		p := filepath.Join(dir, n)
 		os.MkdirAll(filepath.Dir(p), 0755)
+		if d.Extra == "lockfile" && n == ".#a.go" {
+			if err := os.Symlink("user@host.4242:1700000000", p); err != nil {
+				return result{kind: "HARNESS", msg: err.Error()}
+			}
+			continue
+		}
 		if d.Extra == "symlink" && n == "s.go" {
 			shared := dir + ".shared"
 			os.MkdirAll(shared, 0755)
@@ -618,7 +647,7 @@ func main() {
 	os.RemoveAll(root)
 	os.Exit(acc.Done(ev.Finish{
 		Prop: "C18", Tier: *tier, Level: "exploration", Start: start,
-		Rule:        "all package directories with a.go holding every sequence of <=2 (thorough <=3) distinct items of a 25-item function-header alphabet (string literals and line comments containing /* or */, names containing 'test' / 'failing_test' a second time, functions named test… with a parameter, type parameters, another result type, plain, failing_, disabled_, helper, method, digit suffix, capital T, underscore and non-ASCII suffix, failing_ twin of a plain test, failing_ and test as infixes, column-0 and indented decoys inside a block comment and a raw string, multi-word), the first file also under 6 names that share a prefix or suffix with filtered names (latest.go, a.gold.go, gold.v.go, test_util.go, a_testing.go, a~b.go, Zeta.go, B.go, _a.go, 0.go), directories under parents named w[1], a*b, q?x, 'sp ace', {a,b}, back\\slash; optionally b.go with <=1 (thorough <=2) further items, x one extra entry {none, x_test.go, x.gold.v, x.go~, sub-directory, README.md, zz.txt, an external test file Z_ext_test.go of package semantics_test} each holding a decoy header, or a .go file that is a symbolic link to a file elsewhere (a real source file of the package); the real test_gen binary run in -coq and -go mode, to standard output and with -out into an existing longer file (same bytes); reference = go/parser over the non-test .go files in name order; oracles: Coq list == Go list == reference (order and Fail marking), method names unique, distinct generated Go files compiled against their package with go vet; evaluations = test_gen runs; non-trivial = directory with at least one test function",
+		Rule:        "all package directories with a.go holding every sequence of <=2 (thorough <=3) distinct items of a 25-item function-header alphabet (string literals and line comments containing /* or */, names containing 'test' / 'failing_test' a second time, functions named test… with a parameter, type parameters, another result type, plain, failing_, disabled_, helper, method, digit suffix, capital T, underscore and non-ASCII suffix, failing_ twin of a plain test, failing_ and test as infixes, column-0 and indented decoys inside a block comment and a raw string, multi-word), the first file also under 6 names that share a prefix or suffix with filtered names (latest.go, a.gold.go, gold.v.go, test_util.go, a_testing.go, a~b.go, Zeta.go, B.go, _a.go, 0.go), directories under parents named w[1], a*b, q?x, 'sp ace', {a,b}, back\\slash; optionally b.go with <=1 (thorough <=2) further items, x one extra entry {none, x_test.go, x.gold.v, x.go~, sub-directory, README.md, zz.txt, an external test file Z_ext_test.go of package semantics_test, .b.go, _b.go, a dangling emacs lock symlink .#a.go, a file with a 70 kB line before a test function, a //go:build ignore generator, x_windows.go, a helper named suite} each holding a decoy header, or a .go file that is a symbolic link to a file elsewhere (a real source file of the package); the real test_gen binary run in -coq and -go mode, to standard output and with -out into an existing longer file (same bytes); reference = go/parser over the non-test .go files that go/build selects (MatchFile), in name order; oracles: Coq list == Go list == reference (order and Fail marking), method names unique, distinct generated Go files compiled against their package with go vet; evaluations = test_gen runs; non-trivial = directory with at least one test function",
 		Assumptions: []string{"a semantics package is gofmt-formatted and its test…/failing_test… functions have signature func() bool", "functions named exactly `test` are outside the alphabet"},
 		Extra:       map[string]any{"distinct_nontrivial": len(acc.Sets["nontrivial"])},
 	}))
